@@ -200,6 +200,17 @@ func TestC11(t *testing.T) {
 		}
 	})
 
+	p = c.rec.NewPart("nul_in_unicode_fold_names", "every position strictly inside a name token of the fold-code-point vectors x 5 contexts x {1, 3} NULs", false, true, "")
+	c.ParRange(p, int64(len(ufv)), func(w *Worker, i int64) {
+		s := ufv[i]
+		for ctx := 0; ctx < 5; ctx++ {
+			for _, ps := range namePositions(s, ctx) {
+				w.Judge(nulCase(s, ctx, ps, 1))
+				w.Judge(nulCase(s, ctx, ps, 3))
+			}
+		}
+	})
+
 	// (b) NUL insertion: every vector x every context x every inside position x 1 NUL (+ 3 NULs at the first position)
 	p = c.rec.NewPart("nul_vectors_all_positions", "every XSS grammar vector (stride-sampled) x 5 contexts x every position strictly inside a name token x {1 NUL} (+ {3 NULs} at the first position)", false, true, "")
 	stride := pick(7, 1)
